@@ -179,6 +179,34 @@ def gen_flux_scenes(ctx, n_per_kind):
             if kind == "hybrid":
                 sc["npr"] = int([3, 0, 1][i % 3])
             out.append(RC.cast32_scene(sc))
+    # catalogues: the total of a scene of several sources is the sum of the sources' totals (every slot of every source
+    # reaches the image: Fourier part, to-be-convolved part, already-observed part)
+    for kind in ("pixel", "fourier", "hybrid"):
+        for i in range(max(2, n_per_kind // 5)):
+            N = [64, 65][i % 2]
+            psf = RC.smooth_asym_psf(rng, [7, 8][i % 2]) * float(rng.uniform(0.5, 2.0))
+            types = [["pointsource", "sersic"], ["dev", "exp", "pointsource"], ["pointsource", "pointsource"], ["sersic_pointsource", "exp"]][i % 4]
+            lo_n, hi_n = (0.8, 2.5) if kind == "pixel" else (0.8, 4.0)
+            if kind == "pixel":
+                types = [t if t != "dev" else "exp" for t in types]     # no flux claim above n = 2.5 for the pixel renderer
+            parts = []
+            for t in types:
+                one = RC.gen_scene(rng, kind, N, psf, types=[t], mode="single", suffix="", pos_styles=("frac",), n_range=(lo_n, hi_n))["params"]
+                for k in one:
+                    if k.startswith("r_eff"):
+                        one[k] = float(rng.uniform(1.5, 3.5))
+                    if k.startswith("ellip"):
+                        one[k] = float(rng.uniform(0, 0.3 if kind == "pixel" else 0.6))     # minor axis ≥ 1 px for the pixel renderer
+                one["flux"] = float(rng.uniform(50, 500))
+                c0 = (N // 2 - 5, N // 2 + 4)
+                one["xc"], one["yc"] = float(rng.uniform(*c0)), float(rng.uniform(*c0))
+                parts.append(one)
+            sc = RC.default_scene(kind=kind, N=N, psf=psf, mode="multi", suffix="", types=list(types), params=RC.with_names(parts, types, "multi", ""))
+            sc["parts"] = parts
+            sc["via_model"] = True
+            if kind == "hybrid":
+                sc["npr"] = int([3, 1][i % 2])      # up to the default 3: more real-space components truncate more light (outside the calibrated band)
+            out.append(RC.cast32_scene(sc))
     return out
 
 
@@ -189,7 +217,10 @@ def flux_child(payload):
         try:
             R = RC.build_renderer(sc)
             ft = jnp.float32 if sc.get("interp", True) else jnp.float64
-            if sc.get("via_model"):
+            if sc.get("parts"):
+                P = {k: jnp.asarray(v, dtype=ft) for k, v in sc["params"].items()}
+                img = np.asarray(R.render_for_model(P, list(sc["types"]), ""), dtype=np.float64)
+            elif sc.get("via_model"):
                 P = {f"{k}_0": jnp.asarray(v, dtype=ft) for k, v in sc["params"].items()}
                 img = np.asarray(R.render_for_model(P, [sc["types"][0]], ""), dtype=np.float64)
             else:
@@ -201,9 +232,31 @@ def flux_child(payload):
     return out
 
 
+def judge_catalogue(sc, res):
+    """scene of several sources: Σ image = Σ_i flux_i·f_in,i·ΣPSF within the flux-weighted band of the sources"""
+    kind, N = sc["kind"], sc["N"]
+    psum = float(np.asarray(sc["psf"]).sum())
+    exp, tol, tot = 0.0, 0.0, 0.0
+    for t, p in zip(sc["types"], sc["parts"]):
+        p = {k: float(np.float32(v)) for k, v in p.items()}
+        comps, wps = components(t, p)
+        f_in = wps + sum(w * frac_inside(N, p["xc"], p["yc"], r, n, e, p["theta"]) for (w, r, n, e) in comps)
+        band = 1e-4 if t == "pointsource" else 0.015 if kind == "pixel" else 0.045 + (1 - f_in)
+        exp += p["flux"] * f_in
+        tol += p["flux"] * band
+        tot += p["flux"]
+    got = res["total"] / psum
+    if abs(got - exp) <= tol:
+        return []
+    return [("catalogue", f"scene {sc['types']}: total/ΣPSF = {got:.3f}, Σ flux·(in-footprint fraction) = {exp:.3f}: off by {(got - exp) / tot:+.4f} of the summed flux "
+             f"(allowed {tol / tot:.4f})")]
+
+
 def judge_flux(sc, res):
     if "error" in res:
         return [("exception", res["error"])]
+    if sc.get("parts"):
+        return judge_catalogue(sc, res)
     p, t, kind, N = sc["params"], sc["types"][0], sc["kind"], sc["N"]
     psum = float(np.asarray(sc["psf"]).sum())
     comps, wps = components(t, p)
